@@ -213,10 +213,10 @@ class C10(Scenario):
     prop = "C10"
     level = "fault_enumeration"
     design_ref = "DESIGN.md 3.4, 4/C10"
-    rule = ("mode A (exact, 75%): VFS histories over names {a,b,c} depth<=3 (create/delete/rename/modify/replace inode or kind/remove root) applied only between polls; one failure "
+    rule = ("mode A (exact, 75%): VFS histories over names {a,b,c} depth<=3 (create/delete/rename/modify/replace inode or kind/rotate/swap/twin identity on another device/recycle = an inode number passes to a new entry of the other kind/remove root) applied only between polls; one failure "
             "(ENOENT/ENOTDIR/EACCES) injected at the k-th stat/listdir call of one poll's walk, k cycling with the run index over every call position of that walk (16 consecutive run indices share "
             "one history); recursive and non-recursive; mode B (racing, 25%): the mutator interleaves with the walk at every VFS call; distinct = distinct (history, fault position, errno, "
-            "interleaving); non-trivial = a fault fired, or a racing mutation landed inside a walk, or a pre-emption was taken")
+            "interleaving); non-trivial = a fault fired, or a racing mutation landed inside a walk, or a pre-emption was taken; 15% of the runs step the wall clock by +-0.5/1/3 intervals between and during polls")
     level_text = ("Mode A: per poll the delivered events equal, as a multiset with classes and paths, the independent reference diff between the previous and the new effective state (fault effects "
                   "as the statement says: failed stat => entry and subtree absent, failed listdir => directory present but empty, failure on the root => root gone), deletions of a kind before "
                   "creations of that kind, nothing when equal, baseline = state at start(); root gone => exactly one DirDeletedEvent(root) and the emitter task finishes. Mode B: no exception, no "
